@@ -10,11 +10,18 @@ def render_bin(cases, async_rt=False):
     lines = ['#![allow(unused_imports, unused_variables, unused_mut, unused_parens, unused_braces, dead_code, unreachable_code, unused_must_use, redundant_semicolons, clippy::all)]',
              '#[path = "../prelude.rs"]', 'mod prelude;', 'use prelude::*;', 'use join::*;', '']
     linemap = {}
-    for (cid, mac, text, mode) in cases:
+    for case in cases:
+        (cid, mac, text, mode) = case[:4]
+        for it in (case[4] if len(case) > 4 else []):
+            lines.append(it)
         start = len(lines) + 1
         lines.append('fn case_%s() {' % cid)
         if mode == 'sync':
             lines.append('    run_case("%s", || {' % cid)
+            lines.append('        (%s! { %s }).show()' % (mac, text))
+            lines.append('    });')
+        elif mode == 'sync-unnamed':
+            lines.append('    run_case_unnamed("%s", || {' % cid)
             lines.append('        (%s! { %s }).show()' % (mac, text))
             lines.append('    });')
         elif mode == 'async':
@@ -28,8 +35,8 @@ def render_bin(cases, async_rt=False):
             linemap[ln] = cid
     lines.append('fn main() {')
     lines.append('    std::panic::set_hook(Box::new(|_| {}));')
-    for (cid, _, _, _) in cases:
-        lines.append('    case_%s();' % cid)
+    for case in cases:
+        lines.append('    case_%s();' % case[0])
     lines.append('}')
     return '\n'.join(lines) + '\n', linemap
 
